@@ -75,7 +75,8 @@ view == <<n, par, loose, packs, tref, lref, pref, cg, midx, bmp, idxv>>
 prim == <<n, par, loose, packs, tref, lref, pref>>
 
 Commits   == 1..n
-Packed    == UNION packs
+Objs(p)   == p[1]                          \* a pack is <<set of groups, naming>>: "d" = pack-<hash of the object
+Packed    == UNION {Objs(p) : p \in packs}  \* names> (dulwich), "g" = pack-<hash of the pack bytes> (git)
 PresentS  == loose \cup Packed
 Present(i) == i \in PresentS
 NoCg   == [on |-> FALSE, commits |-> {}, closed |-> TRUE]
@@ -129,8 +130,8 @@ T_Ref(r)      == tref[r]
 Kinds == {"cg", "midx", "bmp"}
 
 \* --- multi-pack-index: DiskObjectStore.contains_packed
-MidxLists(i)  == i \in UNION midx.packs
-MidxLive(i)   == \E p \in midx.packs \cap packs : i \in p
+MidxLists(i)  == \E p \in midx.packs : i \in Objs(p)
+MidxLive(i)   == \E p \in midx.packs \cap packs : i \in Objs(p)
 MidxHit(A, i) == "midx" \in A /\ midx.on /\ MidxLists(i) /\ (MidxChecksPack => MidxLive(i))
 \* --- commit-graph: ParentsProvider.get_parents, _collect_ancestors
 CgHit(A, i)   == "cg" \in A /\ cg.on /\ i \in cg.commits /\ (CgChecksStore => Present(i))
@@ -138,9 +139,9 @@ CgPar(i)      == IF cg.closed THEN par[i] ELSE par[i] \cap cg.commits   \* missi
 \* --- bitmaps: BitmapReachability (falls back to GraphTraversalReachability)
 Usable(A, b)  == /\ "bmp" \in A /\ b.at \in packs
                  /\ BitmapChecksum => b.for = b.at
-                 /\ BitmapClosedPack => ClosedIn(b.sel, b.for)
+                 /\ BitmapClosedPack => ClosedIn(b.sel, Objs(b.for))
 \* what the bits of commit set S decode to: positions are those of pack b.for read against pack b.at
-Decode(b, S)  == IF b.for = b.at THEN Anc(S) \cap b.at ELSE b.at \ Anc(S)
+Decode(b, S)  == IF b.for = b.at THEN Anc(S) \cap Objs(b.at) ELSE Objs(b.at) \ Anc(S)
 
 \* everything a reader with accelerators A derives once: parents and ancestors of every commit, usable bitmaps
 View(A) ==
@@ -207,9 +208,12 @@ RefsTransparent == \A r \in Refs : RefVal(r) = tref[r]
 StaleRejected ==
     /\ \A i \in Commits : MidxHit(Kinds, i) => MidxLive(i)
     /\ \A i \in Commits : CgHit(Kinds, i) => Present(i) /\ CgPar(i) = par[i]
-    /\ \A b \in bmp : Usable(Kinds, b) => b.for = b.at /\ ClosedIn(b.sel, b.for)
+    /\ \A b \in bmp : Usable(Kinds, b) => b.for = b.at /\ ClosedIn(b.sel, Objs(b.for))
 TypeOK ==
-    /\ n \in 0..N /\ loose \subseteq Commits /\ Packed \subseteq Commits /\ {} \notin packs
+    /\ n \in 0..N /\ loose \subseteq Commits /\ Packed \subseteq Commits
+    /\ \A p \in packs : Objs(p) # {} /\ p[2] \in {"d", "g"}
+    /\ \A p, q \in packs : p # q => Objs(p) \cap Objs(q) = {}      \* no object is packed twice
+    /\ loose \cap Packed = {}
     /\ \A i \in 1..N : par[i] \subseteq 1..(i - 1) /\ (i > n => par[i] = {})
     /\ Healthy
 
@@ -228,7 +232,7 @@ Commit(P, r, how) ==
     /\ how = "pack" => Cardinality(packs) < MaxPacks
     /\ n' = n + 1 /\ par' = [par EXCEPT ![n + 1] = P]
     /\ IF how = "loose" THEN loose' = loose \cup {n + 1} /\ UNCHANGED packs
-                        ELSE packs' = packs \cup {{n + 1}} /\ UNCHANGED loose
+                        ELSE packs' = packs \cup {<<{n + 1}, "d">>} /\ UNCHANGED loose
     /\ tref' = [tref EXCEPT ![r] = n + 1] /\ lref' = [lref EXCEPT ![r] = n + 1]
     /\ UNCHANGED <<pref, acc>>
 SetRef(r, c) ==
@@ -247,33 +251,35 @@ PackRefs(w) ==
     /\ pref' = [r \in Refs |-> RefVal(r)] /\ lref' = [r \in Refs |-> 0]
     /\ UNCHANGED <<n, par, loose, packs, tref, acc>>
 PackLoose ==
-    /\ Lvl /\ act' = <<"PackLoose">> /\ loose # {} /\ Cardinality(packs \cup {loose}) <= MaxPacks
-    /\ packs' = packs \cup {loose} /\ loose' = {}
+    /\ Lvl /\ act' = <<"PackLoose">> /\ loose # {} /\ Cardinality(packs) < MaxPacks
+    /\ packs' = packs \cup {<<loose, "d">>} /\ loose' = {}
     /\ UNCHANGED <<n, par, tref, lref, pref, acc>>
 \* dulwich repack(): everything into one pack; accelerator files are left alone (bitmaps of removed packs
 \* stay on disk as orphans and re-attach if a pack of that name comes back)
 RepackD ==
-    /\ Lvl /\ act' = <<"RepackD">> /\ PresentS # {} /\ (packs # {PresentS} \/ loose # {})
-    /\ packs' = {PresentS} /\ loose' = {}
+    /\ Lvl /\ act' = <<"RepackD">> /\ PresentS # {} /\ (packs # {<<PresentS, "d">>} \/ loose # {})
+    /\ <<PresentS, "g">> \notin packs          \* (dulwich would keep the git-named twin: not modelled)
+    /\ packs' = {<<PresentS, "d">>} /\ loose' = {}
     /\ UNCHANGED <<n, par, tref, lref, pref, acc>>
 \* dulwich garbage_collect(grace_period=None): unreachable objects go, the rest into one pack
 Gc ==
-    /\ Lvl /\ act' = <<"Gc">> /\ PresentS # {} /\ (loose # {} \/ packs # {Reach})
-    /\ packs' = (IF Reach = {} THEN {} ELSE {Reach}) /\ loose' = {}
+    /\ Lvl /\ act' = <<"Gc">> /\ PresentS # {} /\ (loose # {} \/ packs # {<<Reach, "d">>})
+    /\ <<Reach, "g">> \notin packs             \* (dulwich would keep the git-named twin: not modelled)
+    /\ packs' = (IF Reach = {} THEN {} ELSE {<<Reach, "d">>}) /\ loose' = {}
     /\ UNCHANGED <<n, par, tref, lref, pref, acc>>
 \* git repack -a -d [-b]: reachable objects into one pack, old packs (with their unreachable objects) deleted,
-\* loose copies of packed objects pruned; the midx is deleted when it names a deleted pack; bitmaps of deleted
-\* packs are deleted; -b writes a bitmap for the new pack
+\* loose copies of packed objects pruned; the midx is deleted when it names a pack that existed; bitmaps of the
+\* old packs are deleted; -b writes a bitmap for the new pack
 RepackG(b) ==
     /\ Lvl /\ act' = <<"RepackG", b>> /\ Reach # {}
-    /\ LET gone == packs \ {Reach}
-           np   == {Reach}
+    /\ LET new  == <<Reach, "g">>                  \* the same objects always give the same bytes, hence the same name
+           gone == packs \ {new}
            nl   == loose \ Reach IN
        /\ \A i \in nl : par[i] \subseteq nl \cup Reach            \* what stays behind keeps its ancestry
-       /\ packs' = np /\ loose' = nl
+       /\ packs' = {new} /\ loose' = nl
        /\ midx' = IF midx.on /\ midx.packs \cap gone # {} THEN NoMidx ELSE midx
-       /\ bmp' = {x \in bmp : x.at \notin gone /\ x.at # Reach}       \* the pack is written anew, its old bitmap goes
-                 \cup (IF b THEN {[at |-> Reach, for |-> Reach, sel |-> Tips]} ELSE {})
+       /\ bmp' = {x \in bmp : x.at \notin packs /\ x.at # new}
+                 \cup (IF b THEN {[at |-> new, for |-> new, sel |-> Tips]} ELSE {})
     /\ UNCHANGED <<n, par, tref, lref, pref, cg, idxv>>
 
 \* ---- accelerators.  w = "dulwich" | "git" is the writer (replayed, not part of the state)
@@ -298,7 +304,7 @@ BuildMidx(w) ==
 BuildBmp ==
     /\ Lvl /\ act' = <<"BuildBmp">> /\ Tips # {} /\ packs # {}
     /\ LET ok(p) == \E b \in bmp : b.at = p /\ (BitmapChecksum => b.for = p)
-           new == {[at |-> p, for |-> p, sel |-> Tips \cap p] : p \in {q \in packs : ~ok(q)}} IN
+           new == {[at |-> p, for |-> p, sel |-> Tips \cap Objs(p)] : p \in {q \in packs : ~ok(q)}} IN
        /\ new # {}
        /\ bmp' = {b \in bmp : ok(b.at) \/ b.at \notin packs} \cup new
     /\ UNCHANGED <<prim, cg, midx, idxv>>
@@ -309,9 +315,9 @@ Remove(k) ==
        \/ k = "bmp" /\ bmp # {} /\ bmp' = {} /\ UNCHANGED <<cg, midx>>
     /\ UNCHANGED <<prim, idxv>>
 \* files built elsewhere: the other repository is a fully packed clone holding every commit ever created
-CopyMidx ==
-    /\ Lvl /\ act' = <<"CopyMidx">> /\ WithCopies /\ n > 0 /\ midx # [on |-> TRUE, packs |-> {Commits}]
-    /\ midx' = [on |-> TRUE, packs |-> {Commits}]
+CopyMidx(wo) ==
+    /\ Lvl /\ act' = <<"CopyMidx", wo>> /\ WithCopies /\ n > 0 /\ midx # [on |-> TRUE, packs |-> {<<Commits, wo>>}]
+    /\ midx' = [on |-> TRUE, packs |-> {<<Commits, wo>>}]
     /\ UNCHANGED <<prim, cg, bmp, idxv>>
 CopyCg ==
     /\ Lvl /\ act' = <<"CopyCg">> /\ WithCopies /\ n > 0 /\ cg # [on |-> TRUE, commits |-> Commits, closed |-> TRUE]
@@ -339,8 +345,9 @@ Next ==
     \/ \E w \in Writers : BuildMidx(w)
     \/ BuildBmp
     \/ \E k \in Kinds : Remove(k)
-    \/ CopyMidx \/ CopyCg
-    \/ \E p, q \in (SUBSET (1..N)) \ {{}} : CopyBmp(p, q)
+    \/ \E wo \in {"d", "g"} : CopyMidx(wo)
+    \/ CopyCg
+    \/ \E p, q \in ((SUBSET (1..N)) \ {{}}) \X {"d", "g"} : CopyBmp(p, q)
     \/ \E w \in Writers, v \in {1, 2} : Reindex(w, v)
 
 Spec == Init /\ [][Next]_vars
